@@ -56,17 +56,36 @@ pub struct Done {
 /// The property itself on the implementation: `None` if the case satisfies C07.
 fn oracle(d: &Done) -> Option<String> {
     let p = vcommon::stark_prime();
-    let first = &d.runs[0].1;
     if d.runs.is_empty() {
         return Some("no run".into());
     }
+    let first = &d.runs[0].1;
     for (name, r) in &d.runs[1..] {
         if r != first {
             return Some(format!("run variants differ: {}={:?} vs {}={:?}", d.runs[0].0, first, name, r));
         }
     }
+    // the mathematical expectation of the case, when the generator supplies one
+    if let Some(exp) = &d.case.expect {
+        let norm = |x: &BigInt| ((x % &p) + &p) % &p;
+        match (exp, first) {
+            (Some(vals), RRes::Ok(rv)) => {
+                let cells = imp::rv_cells(rv);
+                if cells.len() != vals.len() || cells.iter().zip(vals).any(|(a, b)| norm(a) != norm(b)) {
+                    return Some(format!("run-time value {:?} != expected {:?}", cells, vals));
+                }
+            }
+            (None, RRes::Panic(_)) => {}
+            (Some(vals), r) => return Some(format!("expected {:?} but the run gives {:?}", vals, r)),
+            (None, r) => return Some(format!("expected a panic but the run gives {:?}", r)),
+        }
+    }
     for (which, c) in [("const", &d.c1), ("const through const fn", &d.c2)] {
         let Some(c) = c else { continue };
+        // constructs on the explicit not-const-evaluable list: a diagnostic is the expected answer
+        if d.case.unsupported_ok && c.val.is_none() && !c.diags.is_empty() {
+            continue;
+        }
         match (&c.val, first) {
             (Some(v), RRes::Ok(rv)) => {
                 if !c.diags.is_empty() {
@@ -76,7 +95,7 @@ fn oracle(d: &Done) -> Option<String> {
                 match imp::cv_cells(v, &d.case.shape) {
                     Some(cc) => {
                         // felt252 const values are kept in (-P, P): equality is in the field
-                        let felt = matches!(d.case.shape, Shape::Int(t) if t.is_felt());
+                        let felt = matches!(d.case.shape, Shape::Int(t) | Shape::Tup(t, _) if t.is_felt());
                         let norm = |x: &BigInt| if felt { ((x % &p) + &p) % &p } else { x.clone() };
                         if cc.len() != cells.len() || cc.iter().zip(&cells).any(|(a, b)| norm(a) != norm(b)) {
                             return Some(format!(
@@ -122,6 +141,11 @@ fn main() {
 
     let mut rng = vcommon::Rng::from_env();
     let (cases, mut dist) = cases::generate(&mut rng, thorough);
+    // debugging aid: H07_LEGS=aggr,part restricts the run to some legs
+    let cases: Vec<Case> = match std::env::var("H07_LEGS") {
+        Ok(l) if !l.is_empty() => cases.into_iter().filter(|c| l.split(',').any(|x| x == c.leg)).collect(),
+        _ => cases,
+    };
     let n_cases = cases.len();
 
     // ---- evaluate, in chunks, in parallel ----
